@@ -1,6 +1,7 @@
 import ArgoVerif.Proofs.RWLock2
 import ArgoVerif.Proofs.RWLock3
 import ArgoVerif.Proofs.RWLock4
+import ArgoVerif.Proofs.RWLock5
 /-
 Props.C10 — ABT_rwlock: a writer excludes everybody, readers share, nobody is stuck.
 Every theorem quantifies over all states reachable in Model.RWLock, i.e. over every interleaving of the steps of any
